@@ -700,22 +700,35 @@ class Interp:
             if isinstance(ft, (Arr, Lit)): s.store_agg(a + o, ft, x)
             else: s.mem.store(a + o, s.L.size(ft), x)
 
+    @staticmethod
+    def keys_in(o, off, n, margin=0):
+        """cell offsets of object o that start in [off-margin, off+n): by range probing for small ranges, by scanning for large ones"""
+        c = o.cells
+        if (n + margin) * 2 < len(c):
+            return [k for k in range(max(0, off - margin), off + n) if k in c]
+        lo = off - margin; hi = off + n
+        return [k for k in c if lo <= k < hi]
+
+    def split_straddlers(s, o, off, n):
+        for k in s.keys_in(o, off, n, 15):
+            e = o.cells.get(k)
+            if e is None: continue
+            if (k < off < k + e[0]) or (k < off + n < k + e[0]): s.mem.split(o, k)
+
     def memcpy(s, d, sr, n):
         if not (isinstance(d, int) and isinstance(sr, int) and isinstance(n, int)): raise Unsupported('symbolic memcpy')
         if n == 0: return
         if s.trace_mem is not None: s.trace_mem.append(('r', sr, n)); s.trace_mem.append(('w', d, n))
         so, soff = s.mem.find(sr, n, 'memcpy read'); do, doff = s.mem.find(d, n, 'memcpy write')
-        # collect source cells (split straddlers)
-        for k in list(so.cells):
-            e = so.cells.get(k)
-            if e is None: continue
-            if (k < soff < k + e[0]) or (k < soff + n < k + e[0]): s.mem.split(so, k)
-        items = [(k - soff, so.cells[k]) for k in so.cells if soff <= k < soff + n]
-        for k in list(do.cells):
-            e = do.cells.get(k)
-            if e is None: continue
-            if (k < doff < k + e[0]) or (k < doff + n < k + e[0]): s.mem.split(do, k)
-        for k in [k for k in do.cells if doff <= k < doff + n]: del do.cells[k]
+        s.split_straddlers(so, soff, n)
+        items = [(k - soff, so.cells[k]) for k in s.keys_in(so, soff, n)]
+        if so.default is not UNDEF:
+            # bytes of a zero-default object that were never written read as zero: materialise them in the copy
+            covered = set()
+            for rel, e in items: covered.update(range(rel, rel + e[0]))
+            items += [(r, (1, so.default)) for r in range(n) if r not in covered]
+        s.split_straddlers(do, doff, n)
+        for k in s.keys_in(do, doff, n): del do.cells[k]
         for rel, e in items: do.cells[doff + rel] = e
 
     def external(s, name, a):
@@ -728,10 +741,8 @@ class Interp:
                 if a[2]:
                     if s.trace_mem is not None: s.trace_mem.append(('w', a[0], a[2]))
                     o, off = s.mem.find(a[0], a[2], 'memset')
-                    for k in list(o.cells):
-                        e = o.cells.get(k)
-                        if e is not None and ((k < off < k + e[0]) or (k < off + a[2] < k + e[0])): s.mem.split(o, k)
-                    for k in [k for k in o.cells if off <= k < off + a[2]]: del o.cells[k]
+                    s.split_straddlers(o, off, a[2])
+                    for k in s.keys_in(o, off, a[2]): del o.cells[k]
                     n = a[2]; k = off
                     w = (a[1] & 0xFF) * 0x0101010101010101
                     while n >= 8 and k % 8 == 0: o.cells[k] = (8, w); k += 8; n -= 8
